@@ -230,6 +230,18 @@ def corpus():
   add('C17', 'benign: integrality of the two ends spelled with is_integer()', 'benign', None,
       edit(dp, 'TBRMMDesignParameters._test_range', lambda n: isinstance(n, ast.BoolOp) and isinstance(n.op, ast.Or) and 'int(upper_range) != upper_range' in norm(n),
            'not float(lower_range).is_integer() or not float(upper_range).is_integer()'))
+  add('C17', 'benign: the two ends tested by one quantified literal all(int(x) == x for x in value)', 'benign', None,
+      edit(dp, 'TBRMMDesignParameters._test_range', lambda n: isinstance(n, ast.BoolOp) and isinstance(n.op, ast.Or) and 'int(upper_range) != upper_range' in norm(n),
+           'not all(int(x) == x for x in value)'))
+  add('C17', 'quantified integrality test with any() in place of all(): one integer end suffices', 'bad', 'R2/helper',
+      edit(dp, 'TBRMMDesignParameters._test_range', lambda n: isinstance(n, ast.BoolOp) and isinstance(n.op, ast.Or) and 'int(upper_range) != upper_range' in norm(n),
+           'not any(int(x) == x for x in value)'))
+  add('C17', 'benign: integrality of a bounded value in positive polarity (not int(value) == value)', 'benign', None,
+      edit(dp, 'TBRMMDesignParameters._test_value_within_bounds', lambda n: isinstance(n, ast.Compare) and norm(n) == 'int(value) != value',
+           '(not int(value) == value)'))
+  add('C17', 'integrality test of a bounded value with the wrong polarity (integers rejected, fractions pass)', 'bad', 'R2/helper',
+      edit(dp, 'TBRMMDesignParameters._test_value_within_bounds', lambda n: isinstance(n, ast.Compare) and norm(n) == 'int(value) != value',
+           'int(value) == value'))
   add('C17', 'benign: class constant renamed', 'benign', None,
       multi(edit(dp, 'TBRMMDesignParameters', lambda n: isinstance(n, ast.Assign) and norm(n.targets[0]) == '_MIN_IROAS', lambda s, n: '_IROAS_MIN = 0.0'),
             edit(dp, 'TBRMMDesignParameters.__post_init__', lambda n: isinstance(n, ast.Attribute) and norm(n) == 'self._MIN_IROAS', 'self._IROAS_MIN')))
